@@ -720,3 +720,4 @@ MANIFEST = {
 MANIFEST["text"] += ' Redefinitions: BFS to depth 4 (5 thorough) over 9 events (warm conversions, three registry.define() redefinitions of existing units, per-call / enabled / with-block use of a context that redefines nothing and one that overlays a unit) on a generated registry; after every history 16 probes (convert, Quantity.to, get_root_units, to_root_units) equal the exact ratio the independent reader derives from the text in force.'
 MANIFEST["text"] += ' Integer ndarrays through ito / convert(inplace=True) / ito_root_units for every same-dimension pair: the right numbers or a refusal, never truncated values.'
 MANIFEST["text"] += ' Files edited between two loads: a main file importing a second one through one disk-cache folder, 4 edit patterns (imported / main / both / none) x 3 numeric types x 6 probes x 4 APIs against the independent reader on the files as they are at the second load.'
+MANIFEST["text"] += " Case-insensitive registries: every prefix spelling x 28 unit spellings, get_root_units / to_root_units against the reader's case-insensitive reading set."
